@@ -39,9 +39,9 @@ _cheap_cache = {}
 def is_cheap(c):
     "linear, pow10-free constraint?  (feasibility pruning uses only these: an over-approximation)"
     k = c.get_id()
-    r = _cheap_cache.get(k)
-    if r is not None:
-        return r
+    ent = _cheap_cache.get(k)
+    if ent is not None and ent[0].eq(c):        # the cached AST is kept alive, so its id cannot be recycled
+        return ent[1]
     r = True
     todo = [c]
     seen = set()
@@ -75,7 +75,7 @@ def is_cheap(c):
                     r = False
                     break
             todo.extend(t.children())
-    _cheap_cache[k] = r
+    _cheap_cache[k] = (c, r)
     return r
 
 
@@ -582,6 +582,8 @@ class Exec:
             return py_floordiv(a, b), py_mod(a, b)
         key = ('divmod', a.get_id(), b.get_id())
         qr = st.ghost.get(key)
+        if qr is not None and not (qr[2].eq(a) and qr[3].eq(b)):
+            qr = None           # recycled AST id
         if qr is None:
             q = fresh_int('q')
             r = a - b * q
@@ -589,9 +591,9 @@ class Exec:
             st.assume(fact)
             if self.spec_pre is not None:
                 self.spec_pre.assume(fact)
-            qr = (q, r)
+            qr = (q, r, a, b)
             st.ghost[key] = qr
-        return qr
+        return qr[0], qr[1]
 
     def intcmp(self, on, x, y):
         return {'Eq': lambda: x == y, 'NotEq': lambda: x != y, 'Lt': lambda: x < y, 'LtE': lambda: x <= y,
